@@ -113,3 +113,8 @@ def shape_key(case, results):
             t = r.req.split()
             return "%s-%s" % (t[0], t[1]) + ("-constraint-violated" if "constraint-violated" in r.flags else "")
     return "constr-%d-lines" % len(case)
+
+SOURCE_TIE = "Source-level tie by proof (Tie/Constr, Tie/Dist, Tie/Compat, Props/C20s): add_constraints, validate, dist_in_2r and the compatibility rule as regenerated from the source equal the model's."
+LEVEL_TEXT = LEVEL_TEXT + " " + SOURCE_TIE
+TRUSTED_BASE = TRUSTED_BASE + ["translator/kernels.py + rustexpr.py (reader of the Rust subset, per-function tables) for the functions named in SOURCE_TIE; generated definitions are proof obligations (Tie modules) on every run"]
+TECHNIQUE = TECHNIQUE + "; model regenerated from the source by a translator for the functions of SOURCE_TIE, tied by proof"
